@@ -5083,6 +5083,25 @@ func updateMeshTopology(tx WriteTxn, idx uint64, node string, svc *structs.NodeS
 
 	for u := range oldUpstreams {
 		if !inserted[u] {
+			// This instance no longer has the upstream: drop ITS reference, and
+			// the pairing itself only when no other registration contributes it.
+			obj, err := tx.First(tableMeshTopology, indexID, u, downstream)
+			if err != nil {
+				return fmt.Errorf("%q lookup failed: %v", tableMeshTopology, err)
+			}
+			existingMapping, ok := obj.(*upstreamDownstream)
+			if !ok {
+				continue
+			}
+			uid := structs.UniqueID(node, svc.CompoundServiceID().String())
+			remaining := existingMapping.DeepCopy()
+			delete(remaining.Refs, uid)
+			if len(remaining.Refs) > 0 {
+				if err := tx.Insert(tableMeshTopology, remaining); err != nil {
+					return fmt.Errorf("failed inserting %s mapping: %s", tableMeshTopology, err)
+				}
+				continue
+			}
 			if _, err := tx.DeleteAll(tableMeshTopology, indexID, u, downstream); err != nil {
 				return fmt.Errorf("failed to truncate %s table: %v", tableMeshTopology, err)
 			}
